@@ -78,6 +78,8 @@ pub struct Case {
     pub fee_wallet_passed: Pubkey,
     pub payer: Pubkey,
     pub paused: bool,
+    /// Some(account_index): use the PDA entrypoint (transfer_to_new_account_pda)
+    pub pda: Option<u16>,
 }
 
 pub fn build(rng: &mut Rng, mostly_valid: bool) -> Case {
@@ -152,11 +154,14 @@ pub fn build(rng: &mut Rng, mostly_valid: bool) -> Case {
     let new_auth = if rng.chance(1, 5) { authority } else { w.new_key() };
     let fee_wallet_passed = if rare(rng) { stranger } else { fee_wallet };
     let payer = w.add_wallet(10_000_000_000);
-    Case { w, group, admin, old, authority, signer, new_key, new_auth, fee_wallet_passed, payer, paused: paused_now }
+    Case { w, group, admin, old, authority, signer, new_key, new_auth, fee_wallet_passed, payer, paused: paused_now, pda: None }
 }
 
 impl Case {
     pub fn ix(&self) -> solana_program::instruction::Instruction {
+        if let Some(idx) = self.pda {
+            return ix::transfer_to_new_account_pda(self.group, self.old, self.signer, self.payer, self.new_auth, self.fee_wallet_passed, idx, None);
+        }
         ix::transfer_to_new_account(self.group, self.old, self.new_key, self.signer, self.payer, self.new_auth, self.fee_wallet_passed)
     }
 }
@@ -209,6 +214,13 @@ pub fn monitor(rng: &mut Rng, n: usize, rep: &mut Report) {
     for _ in 0..n {
         rep.bump("cases");
         let mut c = build(rng, true);
+        if rng.chance(1, 2) {
+            // the PDA entrypoint: the new account lives at the address derived from (group, new authority, index, 0)
+            let idx = rng.below(4) as u16;
+            c.pda = Some(idx);
+            c.new_key = ix::marginfi_account_pda(&c.group, &c.new_auth, idx, 0).0;
+            rep.bump("pda_variant");
+        }
         let before = c.w.marginfi_account(&c.old);
         let pre_store = c.w.accounts.clone();
         let r = c.w.exec(&c.ix());
@@ -262,7 +274,12 @@ pub fn monitor(rng: &mut Rng, n: usize, rep: &mut Report) {
                 // once: every further attempt on the old account is refused (any signer / target)
                 for signer in [c.authority, c.admin, c.signer] {
                     let k2 = c.w.new_key();
-                    let ix2 = ix::transfer_to_new_account(c.group, c.old, k2, signer, c.payer, c.new_auth, c.fee_wallet_passed);
+                    let ix2 = if let Some(idx) = c.pda {
+                        // another index => another, not yet existing, PDA
+                        ix::transfer_to_new_account_pda(c.group, c.old, signer, c.payer, c.new_auth, c.fee_wallet_passed, idx + 7, None)
+                    } else {
+                        ix::transfer_to_new_account(c.group, c.old, k2, signer, c.payer, c.new_auth, c.fee_wallet_passed)
+                    };
                     if c.w.exec(&ix2).is_ok() {
                         rep.fail("C16 a transferred account was transferred a second time".to_string());
                     }
@@ -275,7 +292,11 @@ pub fn monitor(rng: &mut Rng, n: usize, rep: &mut Report) {
                 if c.w.get(&s3).is_none() {
                     c.w.accounts.insert(s3, crate::world::Acct { lamports: 1_000_000_000, data: vec![], owner: solana_program::system_program::ID, executable: false });
                 }
-                let ix3 = ix::transfer_to_new_account(c.group, c.new_key, k3, s3, c.payer, c.authority, c.fee_wallet_passed);
+                let (ix3, k3) = if let Some(idx) = c.pda {
+                    (ix::transfer_to_new_account_pda(c.group, c.new_key, s3, c.payer, c.authority, c.fee_wallet_passed, idx + 11, None), ix::marginfi_account_pda(&c.group, &c.authority, idx + 11, 0).0)
+                } else {
+                    (ix::transfer_to_new_account(c.group, c.new_key, k3, s3, c.payer, c.authority, c.fee_wallet_passed), k3)
+                };
                 match c.w.exec(&ix3) {
                     Ok(()) => {
                         rep.bump("chained");
